@@ -5,7 +5,7 @@ ID = "C08"
 ROWS = "ABCDEFGHIJKLMNOPQRSTUVWXYZ"
 BOUNDS = {
     "quick": "(a) evotools/fluenttools.get_well_position on real Labware/Trough objects with the well id a symbolic character vector of every length 0..4 "
-             "(characters 32..255), geometries plate 3x12, 9x2, 26x1, 1x1 and trough 9 virtual rows x 2 columns, 1x1; (b) aspirate/dispense with the symbolic id "
+             "(characters 32..255), geometries plate 3x12, 9x2, 26x1, 1x1 and trough 9 virtual rows x 2 columns, 1x1; (b) aspirate/dispense (and transfer, id length 3) with the symbolic id "
              "(labware index wrapped in a symbolic-aware mapping) on plate 3x2 / trough 3x2 (and plate 2x11 for ids of length 4), both devices; (c) structural agreement of wells / indices / positions / "
              "make_well_array / make_well_index_dict and both numbering helpers for EVERY well of every plate rows 1..26 x columns {1,2,9,10,12,24,99,120} and every "
              "trough virtual_rows {1,2,8,26} x columns {1,2,12,24} (concrete execution, not solver-decided)",
@@ -30,6 +30,11 @@ def shards(tier):
             for op in ("aspirate", "dispense"):
                 for L in (2, 3, 4):
                     out.append(dict(part="op", geo=g, dev=dev, op=op, L=L))
+    # the same well id given to transfer() as source / destination
+    for g in [("trough", 3, 2), ("ltrough", 3, 2), ("plate", 3, 2)]:
+        for dev in ("evo", "fluent"):
+            for op in ("transfer-src", "transfer-dst"):
+                out.append(dict(part="op", geo=g, dev=dev, op=op, L=3))
     # ids one character longer than a canonical id on a plate with two-digit columns ('A010' must not be taken for 'A01' or 'A10')
     for dev in ("evo", "fluent"):
         for op in ("aspirate", "dispense"):
@@ -111,6 +116,23 @@ def scenario(ctx, p):
         wl = common.make_worklist(ctx, dev, 1000)
         wl.distribute(src, col, dst, wells, volume=10)
         c.update(dev=dev, V=V, C=C, col=col, dkind=dkind, wells=wells, recs=list(wl))
+        # ids that do not exist (a row beyond the virtual rows, lower case, a column beyond the last) given to transfer(): refused, nothing recorded
+        bad = []
+        plate = ns.Labware("P", 4, 3, min_volume=0, max_volume=1e6, initial_volumes=500)
+        for lab, ids in ((src, [f"{ROWS[V]}01", "a01", f"A{C + 1:02d}", "Z01"]), (plate, ["E01", "b02", "A04"])):
+            for wid_ in ids:
+                for as_source in (True, False):
+                    wl2 = common.make_worklist(ctx, dev, 1000)
+                    try:
+                        if as_source:
+                            wl2.transfer(lab, wid_, plate, "A01", 10.0)
+                        else:
+                            wl2.transfer(plate, "A01", lab, wid_, 10.0)
+                        bad.append(f"{dev} transfer {'from' if as_source else 'into'} {lab.name}.{wid_} was accepted: {list(wl2)}")
+                    except (KeyError, ValueError):
+                        if [r for r in wl2 if r[0] in "ADC"]:
+                            bad.append(f"{dev} transfer {'from' if as_source else 'into'} {lab.name}.{wid_} raised but left {list(wl2)}")
+        c["bad_transfers"] = bad
         return wl
     g = tuple(p["geo"])
     lab = make(ns, g)
@@ -127,6 +149,14 @@ def scenario(ctx, p):
         lab._indices = SymDict(lab._indices)
     wl = common.make_worklist(ctx, p["dev"], 1000)
     c["wl"] = wl
+    if p["op"].startswith("transfer"):
+        ns = common.rt()
+        other = ns.Labware("Other", 2, 2, min_volume=0, max_volume=1000, initial_volumes=500)
+        if p["op"] == "transfer-src":
+            wl.transfer(lab, well, other, "A01", 10.0)
+        else:
+            wl.transfer(other, "A01", lab, well, 10.0)
+        return wl
     getattr(wl, p["op"])(lab, well, 10.0)
     return wl
 
@@ -169,6 +199,8 @@ def judge(ctx, p, outcome):
             ctx.violate(f"C08: distribute raised {type(val).__name__}: {val}")
             return
         ctx.reach("distribute")
+        for m in c.get("bad_transfers", [])[:3]:
+            ctx.violate("C08: a transfer naming a well id that does not exist was accepted or left records behind", info=m)
         (rec,) = [r for r in c["recs"] if r.startswith("R;")]
         f = rec.split(";")
         V, col, dev = c["V"], c["col"], c["dev"]
@@ -199,7 +231,7 @@ def judge(ctx, p, outcome):
         ctx.prove(ctx.implies(canon, ctx.eq(pos, want)), "C08: position differs from 1 + column*rows + row (device-specific for troughs)")
         return
     # operation level: accepted ids are exactly the canonical ids; the record carries the formula position
-    recs = [r for r in c["wl"] if r[0] in "AD"]
+    recs = [r for r in c["wl"] if r[0] in "AD" and r.split(";")[1] != "Other"]
     if len(recs) != 1:
         ctx.violate(f"C08: {len(recs)} records for one well")
         return
